@@ -728,6 +728,37 @@ package getoptions
 //@   modifies gopt.programTree.SuggestionFns
 //@   ensures argcompfns {C17}: result == gopt && isconcat(gopt.programTree.SuggestionFns, old(gopt.programTree.SuggestionFns), fn)
 
+//@ func (*GetOpt).Value
+//@   props C06 C19
+//@   requires gopt != nil && gopt.programTree != nil && NodeOK(gopt.programTree)
+//@   modifies
+
+// Positional-argument helpers: the next argument and the rest, or the help-called error with the synopsis written out.
+//@ func (*GetOpt).GetRequiredArg
+//@   props C19
+//@   requires reqarg.pre: gopt != nil && gopt.programTree != nil && NodeOK(gopt.programTree) && (gopt.finalNode != nil ==> NodeOK(gopt.finalNode))
+//@     && 0 <= gopt.programTree.SynopsisArgsIdx && gopt.programTree.SynopsisArgsIdx < 1000000
+//@   modifies gopt.programTree.SynopsisArgsIdx, $out
+//@   ensures reqarg.some: len(args) >= 1 ==> result0 == args[0] && result2 == nil && len(result1) == len(args) - 1 && $out == old($out)
+//@   ensures reqarg.none: len(args) == 0 ==> result0 == "" && result2 == ErrorHelpCalled
+//@   ensures reqarg.idx: gopt.programTree.SynopsisArgsIdx == old(gopt.programTree.SynopsisArgsIdx) + 1
+
+//@ func (*GetOpt).GetRequiredArgInt
+//@   props C19
+//@   requires reqarg.pre: gopt != nil && gopt.programTree != nil && NodeOK(gopt.programTree) && (gopt.finalNode != nil ==> NodeOK(gopt.finalNode))
+//@     && 0 <= gopt.programTree.SynopsisArgsIdx && gopt.programTree.SynopsisArgsIdx < 1000000
+//@   modifies gopt.programTree.SynopsisArgsIdx, $out
+//@   ensures reqint.ok: len(args) >= 1 && atoi_ok(args[0]) ==> result0 == atoi_val(args[0]) && result2 == nil
+//@   ensures reqint.bad: len(args) >= 1 && !atoi_ok(args[0]) ==> result2 != nil
+
+//@ func (*GetOpt).GetRequiredArgFloat64
+//@   props C19
+//@   requires reqarg.pre: gopt != nil && gopt.programTree != nil && NodeOK(gopt.programTree) && (gopt.finalNode != nil ==> NodeOK(gopt.finalNode))
+//@     && 0 <= gopt.programTree.SynopsisArgsIdx && gopt.programTree.SynopsisArgsIdx < 1000000
+//@   modifies gopt.programTree.SynopsisArgsIdx, $out
+//@   ensures reqfloat.ok: len(args) >= 1 && pf_ok(args[0]) ==> result0 == pf_val(args[0]) && result2 == nil
+//@   ensures reqfloat.bad: len(args) >= 1 && !pf_ok(args[0]) ==> result2 != nil
+
 // ---- typed definers (generated by /verif/tools/gen_definer_contracts.py; one uniform contract per kind) ----
 // A definer registers a fresh record under the name, wires the caller's variable as its receiver, writes the
 // default once, and then applies the modifiers. It may panic only on an invalid definition.
